@@ -183,6 +183,9 @@ def render_pattern(d):
             parts[-1] = parts[-1] + "(?: %s %s)?" % (lit, grp)
             continue
         name, ftype = tok[1], tok[2]
+        if d["matcher"] == "cuke":
+            parts.append({"d": "{int}", "f": "{float}", "w": "{word}"}[ftype])
+            continue
         if d["matcher"] == "re":
             rx = {"d": r"\d+", "f": r"\d+\.\d+", "w": r"[A-H]+",
                   "": r"[K-P ]+", "Color": r"[A-Z]+"}[ftype]
@@ -205,7 +208,10 @@ def def_regex(d):
             parts[-1] = parts[-1] + "(?: %s (%s))?" % (re.escape(tok[3]), rx)
         else:
             ftype = tok[2]
-            if d["matcher"] == "re":
+            if d["matcher"] == "cuke":
+                # cucumber expressions: {int}, {float} (also takes an integer), {word} (no blanks)
+                rx = {"d": r"-?\d+", "f": r"[-+]?\d*\.?\d+", "w": r"[^\s]+"}[ftype]
+            elif d["matcher"] == "re":
                 rx = {"d": r"\d+", "f": r"\d+\.\d+", "w": r"[A-H]+", "": r"[K-P ]+", "Color": r"[A-Z]+"}[ftype]
             else:
                 # documented parse semantics: an untyped field takes any text (non-greedy)
@@ -805,6 +811,8 @@ def gen_world(seed, overrides=None, profile=None):
     pool = list(TAG_POOL) if rng.random() < 0.7 else list(PLAIN_TAGS)
     if not dims.get("allow_wip_tag", True):
         pool = [t for t in pool if t != "wip"]
+    if dims.get("wip_bias"):
+        pool = ["wip", "wip", "a", "b", "slow"]
     opts = dict(tag_pool=pool, p_tag=rng.choice([0.15, 0.35, 0.5]),
                 p_undefined=dims["p_undefined"], p_doc=0.1, p_table=0.1,
                 p_background=rng.choice([0.0, 0.3, 0.6]),
